@@ -250,7 +250,91 @@ def run(chk, prog):
         chk.decide(RC, chk.key(RC, 'frame-type-checked'), bool(first_err),
                    'returns an error when the current frame is not the host-evaluation frame',
                    'the frame-type check is gone', cf.loc(0))
+    thread_pops_respect_the_host_frame(chk, prog)
 
 
 def _returns_ok(fn, b):
     return True
+
+
+TRIVIAL_AFTER_TEST = ('get_state', 'get_state_mut', 'get_callstack', 'borrow', 'borrow_mut', 'deref', 'deref_mut', 'as_ref',
+                      'clone', 'drop', 'len', 'is_empty')
+
+
+def _true_successor(fn, bb, t):
+    """Block entered when the boolean result of call `t` (in block bb) is true, or None when it is not branched on."""
+    d = t['dest'].get('l') if 'p' not in t['dest'] else None
+    b = t.get('t')
+    neg = False
+    names = {d}
+    for _ in range(6):
+        if b is None:
+            return None
+        blk = fn.blocks[b]
+        for s in blk['st']:
+            if s['k'] == 'assign' and 'p' not in s['pl']:
+                rv = s['rv']
+                if rv['k'] == 'use' and rv['op'].get('k') in ('copy', 'move') and rv['op']['pl'].get('l') in names \
+                        and 'p' not in rv['op']['pl']:
+                    names.add(s['pl']['l'])
+                elif rv['k'] == 'unop' and rv['op'] == 'Not' and rv['a'].get('k') in ('copy', 'move') \
+                        and rv['a']['pl'].get('l') in names:
+                    names.add(s['pl']['l'])
+                    neg = not neg
+        tm = blk['term']
+        if tm and tm['k'] == 'switch' and tm['d'].get('k') in ('copy', 'move') and tm['d']['pl'].get('l') in names:
+            zero = [x for v, x in tm['ts'] if v == 0]
+            if not zero:
+                return None
+            return zero[0] if neg else tm['else']
+        if tm and tm['k'] in ('goto', 'drop') and 't' in tm:
+            b = tm['t']
+            continue
+        return None
+    return None
+
+
+def thread_pops_respect_the_host_frame(chk, prog):
+    RT = 'C16.thread-pops-respect-the-host-frame'
+    chk.rule(RT, 'While the frame of a function evaluated from the host is on top of the call stack, "a thread can be '
+             'popped" is false everywhere it is asked: CallStack::can_pop_thread itself tests '
+             'element_is_evaluate_from_game, or - if the test has been moved to the callers - at every call site nothing '
+             'but accessors runs on the true side before element_is_evaluate_from_game is asked. Otherwise an evaluation '
+             'started while the story rests inside a live thread pops that thread, or ends the story with "Thread '
+             'available to pop" at the end of its last nested continue.')
+    cpt = prog.fn('CallStack::can_pop_thread')
+    if not chk.anchor(RT, 'CallStack::can_pop_thread', cpt):
+        return
+    E = 'element_is_evaluate_from_game'
+    inside = any(callee_short(t).endswith('::' + E) for g in prog.with_closures(cpt) for _, t in g.calls())
+    sites = [(fn, bb, t) for fn in prog.fns.values() if fn.crate == 'bladeink'
+             for bb, t in fn.calls() if callee_short(t) == 'CallStack::can_pop_thread']
+    chk.floor(RT, 'call sites of can_pop_thread', len(sites), 3)
+    if inside:
+        chk.ok(RT, chk.key(RT, 'can_pop_thread', 'tests-the-host-frame'),
+               'can_pop_thread itself answers false under a host evaluation frame (%d call sites covered)' % len(sites),
+               cpt.loc(0))
+        return
+    for fn, bb, t in sorted(sites, key=lambda x: (x[0].p, x[1])):
+        g = cfg(fn)
+        T = _true_successor(fn, bb, t)
+        bad = None
+        if T is None:
+            # the answer is handed on (a wrapper): it must ask about the host frame itself
+            if not any(callee_short(t2).endswith('::' + E) for _, t2 in fn.calls()):
+                bad = 'the answer is handed on without the host-frame test'
+        else:
+            eb = [b2 for b2, t2 in fn.calls() if callee_short(t2).endswith('::' + E)]
+            region = g.reachable([T], avoid=eb)
+            dom = g.dominators()
+            for b2, t2 in fn.calls():
+                if b2 in region and T in dom.get(b2, ()) and b2 not in eb:
+                    nm = callee_short(t2).rsplit('::', 1)[-1]
+                    if nm not in TRIVIAL_AFTER_TEST and not (b2 == T and nm == E):
+                        bad = 'on the true side %s runs before (or without) the host-frame test' % callee_short(t2)
+                        break
+        chk.decide(RT, chk.key(RT, prog.root_fn(fn).short, 'can_pop_thread'), bad is None,
+                   'the host-frame test follows on the true side',
+                   '%s asks can_pop_thread, which no longer answers false under a host evaluation frame, and %s: a host '
+                   'evaluate_function made while the story rests inside a live thread pops the story\'s thread or ends '
+                   'the story' % (prog.root_fn(fn).short, bad), fn.loc(bb))
